@@ -17,9 +17,13 @@ package main
 
 import (
 	"bytes"
+	"crypto/sha1"
 	"fmt"
 	"math"
 	"os"
+	"os/exec"
+	"sort"
+	"strconv"
 	"strings"
 	"time"
 
@@ -89,6 +93,8 @@ func cmapFile(n int) []byte {
 }
 
 var opTable = pscmp.NewOpTable()
+
+var clockJumps = []time.Duration{0, 3 * time.Second, 1000 * time.Hour}
 
 func workloads() []workload {
 	var ws []workload
@@ -359,6 +365,20 @@ func workloads() []workload {
 			"/g d length dict def d {1 index /b ne {g 3 1 roll put} {pop pop} ifelse} forall g length")
 		return pscmp.Canon(opTable, intp) + fmt.Sprint(" err=", err)
 	}})
+	ws = append(ws, workload{"ReadCMap(60 blocks of 100 mappings)", func() string {
+		var sb strings.Builder
+		sb.WriteString("/CIDInit /ProcSet findresource begin\n12 dict begin\nbegincmap\n/CMapName /Big def\n/CMapType 1 def\n1 begincodespacerange <0000> <ffff> endcodespacerange\n")
+		for b := 0; b < 60; b++ {
+			sb.WriteString("100 begincidchar\n")
+			for i := 0; i < 100; i++ {
+				fmt.Fprintf(&sb, "<%04x> %d\n", b*100+i, b*100+i)
+			}
+			sb.WriteString("endcidchar\n")
+		}
+		sb.WriteString("endcmap\nCMapName currentdict /CMap defineresource pop\nend\nend\n")
+		o := observe.Run("cmap", strings.NewReader(sb.String())).Obs
+		return fmt.Sprintf("%d bytes, sum %x", len(o), sha1.Sum([]byte(o)))
+	}})
 	// programs whose result depends on the order in which forall visits a dictionary
 	ws = append(ws, workload{"forall over a dictionary, left after the first entry", func() string {
 		intp := postscript.NewInterpreter()
@@ -461,8 +481,45 @@ func (w *limitWriter) Write(p []byte) (int, error) {
 	return len(p), nil
 }
 
+// tieFont: glyphs whose only coordinate lies just above (side = +1) or just
+// below (side = -1) a point where the closest quotient p/q with q <= 107
+// changes.  The two fonts differ by 2e-7 in every coordinate and are written
+// differently; anything the writer remembers about one of them under a key
+// that is rounded more coarsely shows in the bytes of the other.
+func tieFont(side float64) *type1.Font {
+	f := fontWith(1)
+	f.FontName = "Ties"
+	var fr []float64
+	for q := 1; q <= 107; q++ {
+		for p := 0; p <= q; p++ {
+			fr = append(fr, float64(p)/float64(q))
+		}
+	}
+	sort.Float64s(fr)
+	var mids []float64
+	for i := 1; i < len(fr); i++ {
+		if fr[i]-fr[i-1] > 1e-5 {
+			mids = append(mids, (fr[i]+fr[i-1])/2)
+		}
+	}
+	for k := 0; k < 48; k++ {
+		m := mids[(k*len(mids))/48]
+		g := &type1.Glyph{WidthX: 500}
+		g.MoveTo(float64(k%3)*7+m+side*1e-7, 0)
+		g.LineTo(100, 100+m+side*1e-7)
+		g.ClosePath()
+		f.Glyphs[fmt.Sprintf("t%02d", k)] = g
+	}
+	return f
+}
+
 func histTargets() []histOp {
 	var ops []histOp
+	ops = append(ops, histOp{"Font.Write(coordinates just above the ties of the quotient search)", func() string {
+		var b bytes.Buffer
+		err := tieFont(+1).Write(&b, &type1.WriterOptions{Format: type1.FormatNoEExec})
+		return fmt.Sprintf("%x err=%v", b.Bytes(), err)
+	}})
 	for _, format := range corpus.Formats {
 		format := format
 		ops = append(ops, histOp{"Font.Write(" + corpus.FormatName(format) + ")", func() string {
@@ -535,6 +592,10 @@ func histHistory() []histOp {
 			histOp{fmt.Sprintf("Metrics.Write failing at write call %d", k+1), func() string { metricsWith(3, 5).Write(&limitWriter{failCall: k}); return "" }},
 		)
 	}
+	ops = append(ops, histOp{"Font.Write of the twin font with coordinates just below the ties", func() string {
+		tieFont(-1).Write(&bytes.Buffer{}, &type1.WriterOptions{Format: type1.FormatNoEExec})
+		return ""
+	}})
 	ops = append(ops,
 		histOp{"Font.Write of a font with a glyph name that cannot be written", func() string {
 			f := other()
@@ -578,6 +639,68 @@ func histHistory() []histOp {
 		}},
 	)
 	return ops
+}
+
+// freshProcessFamily: "in one process or in different processes".  Each item is
+// a child process whose first library calls are one history operation followed
+// by the target; its output must be the output of the target in a process
+// that does nothing else (the worker's own reading at its start).  Unlike the
+// family above, the history here runs BEFORE the target's first use, which is
+// what matters for anything the library remembers from its first caller.
+func freshProcessFamily(budget time.Duration) mc.Family {
+	targets, hist := histTargets(), histHistory()
+	nh := len(hist)
+	var refs []string
+	return mc.Family{
+		Name: "history-before-first-use-in-a-fresh-process", Items: len(targets) * (1 + nh), Budget: budget,
+		Rule: fmt.Sprintf("%d targets x {no history, each of the %d history operations}: a child process (`c17 -child target history`) runs the history operation and then the target as its first library calls and prints a hash of the target's output; it must equal the hash of the output this worker obtained at its own start; non-trivial = all", len(targets), nh),
+		Body: func(c *mc.Ctx, item int) mc.Verdict {
+			zzverifrt.OrderHook = nil
+			if refs == nil {
+				for _, t := range targets {
+					refs = append(refs, t.run())
+				}
+			}
+			ti, h := item%len(targets), item/len(targets)-1
+			exe, err := os.Executable()
+			if err != nil {
+				return mc.Fail("C17:harness:executable", err.Error())
+			}
+			out, err := exec.Command(exe, "-child", fmt.Sprint(ti), fmt.Sprint(h)).Output()
+			c.Step()
+			what := targets[ti].name + " as the first call of a process"
+			if h >= 0 {
+				what = targets[ti].name + " in a process whose only earlier call was: " + hist[h].name
+			}
+			if err != nil {
+				return mc.Fail("C17:fresh-process:child-died", what+": "+err.Error())
+			}
+			want := fmt.Sprintf("%x\n", sha1.Sum([]byte(refs[ti])))
+			if string(out) != want {
+				v := mc.Fail("C17:fresh-process:output-differs:"+strings.SplitN(targets[ti].name, "(", 2)[0], what+": the output differs from the output of the same call in another process (hashes "+strings.TrimSpace(string(out))+" / "+strings.TrimSpace(want)+")")
+				v.Render = what
+				return v
+			}
+			v := mc.Pass("same-as-in-another-process", true)
+			if c.Render() {
+				v.Render = what + " → identical"
+			}
+			return v
+		},
+		Describe: func(item int) string {
+			return fmt.Sprintf("target %d history %d", item%len(targets), item/len(targets)-1)
+		},
+	}
+}
+
+func freshChild(args []string) {
+	targets, hist := histTargets(), histHistory()
+	ti, _ := strconv.Atoi(args[0])
+	h, _ := strconv.Atoi(args[1])
+	if h >= 0 {
+		hist[h].run()
+	}
+	fmt.Printf("%x\n", sha1.Sum([]byte(targets[ti].run())))
 }
 
 func historiesFamily(budget time.Duration) mc.Family {
@@ -631,6 +754,10 @@ func historiesFamily(budget time.Duration) mc.Family {
 }
 
 func main() {
+	if len(os.Args) > 1 && os.Args[1] == "-child" {
+		freshChild(os.Args[2:])
+		return
+	}
 	ws := workloads()
 	mc.Main(mc.Program{
 		Property: "C17",
@@ -648,9 +775,9 @@ func main() {
 				dev = 4
 			}
 			sites, _ := os.ReadFile("build/gen-c17-sites.json")
-			return []mc.Family{historiesFamily(budget), {
+			return []mc.Family{historiesFamily(budget), freshProcessFamily(budget), {
 				Name: "map-order-permutations", Items: len(ws), MaxDev: dev, Budget: budget,
-				Rule: fmt.Sprintf("%d workloads (Font.Write x 4 formats, WritePDF, font queries, write+read for 1..4 glyphs; Metrics.Write with 1..3 ligatures x 1,3,5 glyphs, metrics queries, write+read; ReadCMap with 1..3 CMaps per file; type1.Read of 4 containers; a dictionary-copy program) x every assignment of iteration orders to the map-iteration sites met, with <= %d sites deviating from sorted order (all n! orders for n<=4, rotations+adjacent swaps beyond); non-trivial = at least one site iterated in a non-sorted order; instrumented sites: %s", len(ws), dev, strings.Join(strings.Fields(string(sites)), "")),
+				Rule: fmt.Sprintf("%d workloads (Font.Write x 4 formats, WritePDF, font queries, write+read for 1..4 glyphs; Metrics.Write with 1..3 ligatures x 1,3,5 glyphs, metrics queries, write+read; ReadCMap with 1..3 CMaps per file; type1.Read of 4 containers; a dictionary-copy program) x every assignment of iteration orders to the map-iteration sites met, with <= %d sites deviating from sorted order (all n! orders for n<=4, rotations+adjacent swaps beyond) and every assignment of clock jumps {0, 3 s, 1000 h} to the readings of the wall clock met (time.Now / Since / Until are routed through the overlay; the pinned library never reads the clock); non-trivial = at least one site iterated in a non-sorted order; instrumented sites: %s", len(ws), dev, strings.Join(strings.Fields(string(sites)), "")),
 				Body: func(c *mc.Ctx, item int) mc.Verdict {
 					w := ws[item]
 					ref, ok := refs[item]
@@ -673,8 +800,21 @@ func main() {
 						}
 						return p
 					}
+					// the wall clock, wherever the library reads it, is the explorer's too:
+					// between two readings no time, three seconds or six weeks may pass
+					zzverifrt.ClockHook = func() time.Duration {
+						k := c.Deviate(3)
+						if k > 0 {
+							deviated = true
+							if c.Render() && len(trace) < 30 {
+								trace = append(trace, fmt.Sprintf("clock+%v", clockJumps[k]))
+							}
+						}
+						return clockJumps[k]
+					}
 					got := w.run()
 					zzverifrt.OrderHook = nil
+					zzverifrt.ClockHook = nil
 					c.Step()
 					if got != ref {
 						n := 0
@@ -682,7 +822,7 @@ func main() {
 							n++
 						}
 						lo := max(0, n-40)
-						v := mc.Fail("C17:order-dependent:"+strings.SplitN(w.name, "(", 2)[0], fmt.Sprintf("%s: result depends on map iteration order (orders %v): first difference at byte %d: %q vs %q", w.name, trace, n, clip(got[lo:]), clip(ref[lo:])))
+						v := mc.Fail("C17:order-dependent:"+strings.SplitN(w.name, "(", 2)[0], fmt.Sprintf("%s: result depends on map iteration order or on the wall clock (orders / clock jumps %v): first difference at byte %d: %q vs %q", w.name, trace, n, clip(got[lo:]), clip(ref[lo:])))
 						v.Render = w.name
 						return v
 					}
